@@ -79,6 +79,24 @@ class Scenario:
     def violation(self, culprit, op, kind, msg, step=None, detail=None):
         return Violation(self.prop, culprit, op, kind, msg, step, detail)
 
+    _open = None
+
+    def open_signatures(self):
+        if Scenario._open is None:
+            from ..engine import load_findings
+
+            Scenario._open = set(d.get("sig") for d in load_findings()[0])
+        return Scenario._open
+
+    def soft(self, v, R):
+        """Raise the violation unless its signature is an open known finding, in which case it is counted and the
+        scenario (which must be able to resynchronise) carries on."""
+        if v.signature in self.open_signatures():
+            R.setdefault("known", {})
+            R["known"][v.signature] = R["known"].get(v.signature, 0) + 1
+            return
+        raise v
+
 
 def shrink_steps(case, key="steps"):
     steps = case.get(key) or []
